@@ -588,6 +588,11 @@ pub fn run_c14(cfg: &BatchCfg, corpus_size: usize, pristine_sample: usize) -> i3
             "e_silence": "fd 1 and fd 2 captured for the silence scan, the forward pass and the whole batch",
         },
         "corpus_calls": calls.len(),
+        "pristine_processes_under_locale_timezone_skew": calls.len(),
+        "pristine_processes_under_clock_skew": if clockskew_so().is_some() { calls.len() } else { 0 },
+        "clock_skew": if clockskew_so().is_some() { "LD_PRELOAD shim: every clock reading jumps 5 s ahead (tools/clockskew.c)" } else { "shim not built (no C compiler): skipped" },
+        "soak_calls": soak_c.len(),
+        "soak_repetitions_per_call": soak_repeats,
         "captured_bytes": captured.len(),
     });
 
